@@ -55,9 +55,10 @@ Definition native (W : world) (p : pcall) : world * outcome :=
   | PWithdraw who => let '(W1, oc, _) := native_withdraw W who in (W1, oc)
   | PSetWithdraw who to => native_setwithdraw W who to
   | PClaim who => if zg (deleg W) who =? 0 then (W, Ok) else let '(W1, oc, _) := native_withdraw W who in (W1, oc)
+  | PTransfer who amt => native_transfer W who amt
   end.
 Definition who_of (p : pcall) : N :=
-  match p with PDelegate w _ | PUndelegate w _ | PWithdraw w | PSetWithdraw w _ | PClaim w => w end.
+  match p with PDelegate w _ | PUndelegate w _ | PWithdraw w | PSetWithdraw w _ | PClaim w | PTransfer w _ => w end.
 
 Theorem owner_call_cosmos_effect_eq_native W D o p :
   who_of p = o ->
@@ -65,7 +66,7 @@ Theorem owner_call_cosmos_effect_eq_native W D o p :
   let '(W2, oc2) := native W p in
   W1 = W2 /\ oc = oc2.
 Proof.
-  intros Hw. destruct p as [who amt|who amt|who|who to|who]; cbn in Hw; subst who; cbn [pre_body native].
+  intros Hw. destruct p as [who amt|who amt|who|who to|who|who amt]; cbn in Hw; subst who; cbn [pre_body native].
   - rewrite !N.eqb_refl. cbn [negb andb].
     destruct (amt <=? 0) eqn:Ea.
     + unfold native_delegate. by rewrite Ea.
@@ -78,6 +79,10 @@ Proof.
   - rewrite !N.eqb_refl. cbn [negb andb]. destruct (native_setwithdraw W o to) as [W1 oc]. by destruct oc.
   - rewrite !N.eqb_refl. cbn [negb andb]. destruct (zg (deleg W) o =? 0); [done|].
     destruct (native_withdraw W o) as [[W1 oc] r]. by destruct oc.
+  - rewrite !N.eqb_refl. cbn [negb andb].
+    destruct (amt <=? 0) eqn:Ea.
+    + unfold native_transfer. by rewrite Ea.
+    + destruct (native_transfer W o amt) as [W1 oc]. by destruct oc.
 Qed.
 
 (** * Witnesses: the model reproduces what the real implementation did, and the property fails there *)
@@ -118,4 +123,25 @@ Proof. vm_compute. auto. Qed.
 Example ok_contract_delegate_conserves :
   model_obs w_ok_contract_delegate = impl_obs w_ok_contract_delegate /\
   b_ok (model_obs w_ok_contract_delegate) = true /\ b_supply (model_obs w_ok_contract_delegate) = 0.
+Proof. vm_compute. auto. Qed.
+(** K15: a contract transfers 154 of the signer's coins over IBC and sends 17 back: 154 are minted *)
+Lemma k15_refuted : model_obs w_k15_contract_transfers_for_origin = impl_obs w_k15_contract_transfers_for_origin /\
+                    b_ok (model_obs w_k15_contract_transfers_for_origin) = true /\
+                    b_supply (model_obs w_k15_contract_transfers_for_origin) = 154.
+Proof. vm_compute. auto. Qed.
+(** K3: the frame that made an ICS-20 transfer reverts, the escrowed coins stay escrowed *)
+Lemma k3c_refuted : model_obs w_k3c_transfer_reverted = impl_obs w_k3c_transfer_reverted /\
+                    b_ok (model_obs w_k3c_transfer_reverted) = true /\
+                    nth 13 (b_bal (model_obs w_k3c_transfer_reverted)) 0 = 100.
+Proof. vm_compute. auto. Qed.
+(** clean ICS-20 transfers: by the owner directly, and by a contract of its own funds under a limited grant *)
+Example ok_owner_transfer_conserves :
+  model_obs w_ok_owner_transfer = impl_obs w_ok_owner_transfer /\
+  b_ok (model_obs w_ok_owner_transfer) = true /\ b_supply (model_obs w_ok_owner_transfer) = 0 /\
+  nth 13 (b_bal (model_obs w_ok_owner_transfer)) 0 = 700.
+Proof. vm_compute. auto. Qed.
+Example ok_contract_transfer_conserves :
+  model_obs w_ok_contract_transfer_own_funds = impl_obs w_ok_contract_transfer_own_funds /\
+  b_ok (model_obs w_ok_contract_transfer_own_funds) = true /\ b_supply (model_obs w_ok_contract_transfer_own_funds) = 0 /\
+  nth 13 (b_bal (model_obs w_ok_contract_transfer_own_funds)) 0 = 430.
 Proof. vm_compute. auto. Qed.
